@@ -7,8 +7,8 @@ import vlib
 
 META = {
     "category": "model_checking",
-    "text": "Server.tla transcribes the EDNS/mandatory middleware size discipline, the stream connection loop with its per-request tasks, bounded result queue, idle/write timers and flush, and the datagram server. TLC checks UdpSize/TcIffDropped/StillParses over the enumerated (EDNS size x hint x response x OPT x question) space and EachResponseOnce/IdQuestionPreserved/Framed/OthersUnaffected over every interleaving of pipelined requests, completion orders, slow peers, clock ticks, aborts and shutdown within small bounds. Every enumerated size case and thousands of generated behaviours are replayed against the real Mandatory(Edns(Cookies(svc))) stack, the real StreamServer/Connection over controllable mock streams and the real DgramServer (paused clock, stepped to quiescence, compared after every step); recorded runs under hostile input (mutated requests, random fragmentation, vanishing peers) are validated by TLC against the same machine.",
-    "note": "Trusted: TLC, the transcription in Server.tla, the mock stream/socket of the harness, tokio's current-thread scheduling (FIFO) which the quiescence order of the spec mirrors. Real sockets, TLS, multi-threaded schedules and wall-clock timing are not exercised; multi-threaded interleavings are explored on the model only. Configured limits below 512 are outside the domain (the datagram server clamps them).",
+    "text": "Server.tla transcribes the EDNS/mandatory middleware size discipline, what the Mandatory(Edns(Cookies)) stack decides before the service sees a request (every public constructor and switch of the three middleware services x transport x opcode / question count / OPT count / EDNS version / keepalive / COOKIE form x server-cookie timestamps all around the RFC 1982 circle on 2 x 16-bit limbs x hash), how a response comes to be (builder route x last builder operations x additional-section layout x octets type x service_fn x EDNS switch, with the stream length prefix), the stream connection loop with its per-request tasks, bounded result queue, idle/write timers and flush, the server's accept loop (connection limit, accept_connections_at_max, reconfigure) and the datagram server. TLC checks UdpSize/TcIffDropped/StillParses/StreamFramed over the enumerated size space, Answered/TimeLaw/FarNeverValid/DeniedGuard over 5 504 request x configuration cases, and EachResponseOnce/IdQuestionPreserved/Framed/OthersUnaffected/AcceptServes over every interleaving of pipelined requests, completion orders, slow peers, clock ticks, aborts, commands and shutdown within small bounds. Every enumerated size / route / pre case and thousands of generated behaviours are replayed against the real stack, the real StreamServer/Connection over controllable mock streams and the real DgramServer (paused clock, stepped to quiescence, compared after every step; service kinds include stripped OPT records, rolled-back pushes, hostile COOKIE options and every ServiceError kind), 600 size cases also through DgramServer/StreamServer on loopback sockets under a multi-thread runtime with a pipelined follow-up request; recorded runs under hostile input (mutated requests, COOKIE options of any length / timestamp / hash, answers assembled by varying builder recipes, random fragmentation, vanishing peers) are validated by TLC against the same machine.",
+    "note": "Trusted: TLC, the transcription in Server.tla, the mock stream/socket of the harness, tokio's current-thread scheduling (FIFO) which the quiescence order of the spec mirrors. Real sockets and a multi-thread runtime are exercised for single requests with one pipelined follow-up only (loopback); TLS, multi-threaded schedules of pipelines, wall-clock timing and the system clock beyond today's date (cookie timestamps are offsets from Serial::now()) are not; multi-threaded interleavings are explored on the model only. Connection attempts arrive one at a time (two attempts pending in the listener at once overshoot the connection limit by the stale count; observed, not judged). Configured limits below 512 are outside the domain (the datagram server clamps them). ServerMetrics getters, with_pre_connect_hook, await_shutdown / is_shutdown and dgram set_write_timeout are not bound.",
     "technique": "TLA+ spec (Server.tla) + TLC exhaustive; spec->impl case/behaviour replay; impl->spec trace validation",
     "design_ref": "DESIGN.md §4 C16",
 }
@@ -316,6 +316,9 @@ def run(ctx):
     ctx.assume("service responses carry their OPT record in the additional section only; body sizes are chosen so that the executor can build them exactly")
     ctx.assume("the quiescence order of the spec (loop task first, then every runnable request task once, FIFO) mirrors tokio's current-thread scheduler; other schedules are explored on the model only")
     ctx.assume("datagrams shorter than a DNS header are NOT ignored by dgram.rs: the whole zero-filled 1024-octet receive buffer is parsed, so they are answered like any request; the spec describes this behaviour, the property does not forbid it")
+    ctx.assume("server-cookie timestamps are offsets from the system clock at the time of the run (Serial::now() cannot be interposed): distances 0 .. 2^32 - 1 are covered, absolute clock values other than today's are not")
+    ctx.assume("connection attempts reach the accept loop one at a time (each is followed by a run to quiescence); with accept_connections_at_max = false at most one attempt waits in the listener")
+    ctx.assume("loopback socket cases wait up to 30 s for an answer; a slower machine would show as a failed case, never as a pass")
     ctx.assume("exact rcodes of answers to malformed-but-long-enough requests are not compared (only: one well-formed response with the request's ID; FORMERR for QR=1)")
 
 
